@@ -72,7 +72,7 @@ SCHEMA = {
     "Branch": ({"entries": NUM, "data": ("typedlist",)}, {}),
 }
 
-WRONG_FOR_NUM = ([], {}, None, "abc")
+WRONG_FOR_NUM = ([], {}, None, "abc", "2.5", "1e3")  # numeric-looking strings are strings: only nan / inf / -inf are numbers in disguise
 WRONG_FOR_STR = (7, ["Count"])
 WRONG_FOR_LIST = ({}, 7)
 WRONG_FOR_MAP = ([], 7)
